@@ -15,8 +15,8 @@ ASSUMPTIONS = [
     "client is reconnectable; safety (one at a time, at most one entry per request, order, tags, refusal) always",
     "the originating request is identified by a caller supplied 'reply' tag found in the entry's request or in the first element of its redirect history",
 ]
-BEHAVIOURS = ["now", "delay", "fragments", "redirect-path", "redirect-host", "close-after", "redirect-nolocation", "redirect-http"]
-STYLES = ["qargs+body", "dict", "query-in-path", "bare"]       # how the caller queues a request
+BEHAVIOURS = ["now", "delay", "fragments", "redirect-path", "redirect-host", "close-after", "redirect-nolocation", "status-204", "redirect-http"]
+STYLES = ["qargs+body", "dict", "query-in-path", "bare", "head"]       # how the caller queues a request
 CODES = [301, 302, 303, 307]
 
 
@@ -26,8 +26,8 @@ def BOUND(tier):
 
 def RULE(tier):
     return ("real http.Client (plain, and TLS flavour with a fake TLS context) with 1-%d queued requests (distinct path and reply "
-            "tag; each queued in one of 4 ways: request() with qargs and body, a raw request dict, the query inside the path, no query), reconnectable or not, against a scripted server whose behaviour per request is enumerated completely: answer at once / "
-            "after 2 idle rounds / in two fragments / redirect (301|302|303|307) to another path / to a second listener / redirect without a Location / answer then "
+            "tag; each queued in one of 5 ways: request() with qargs and body, a raw request dict, the query inside the path, no query, a HEAD request), reconnectable or not, against a scripted server whose behaviour per request is enumerated completely: answer at once / "
+            "after 2 idle rounds / in two fragments / redirect (301|302|303|307) to another path / to a second listener / redirect without a Location / 204 without a length / answer then "
             "close / (TLS) redirect to an http:// location. Oracle: no request bytes reach the server while an earlier response is "
             "unfinished; client.responses holds at most one entry per request in queue order with its tag and redirect history; "
             "https->http is refused without any connection to the plain listener; exactly one entry per request when the connection "
@@ -111,13 +111,13 @@ class Peer:
                 path = target.split("?")[0]
                 w.seen.append((self.port, path))
                 w.wire.append((parts[0], target, bytes(rest[:clen])))
-                self.respond(c, path)
+                self.respond(c, path, parts[0])
 
-    def respond(self, c, path):
+    def respond(self, c, path, method="GET"):
         w = self.w
         s, buf, pending = c
         body = ("echo:" + path).encode()
-        ok = b"HTTP/1.1 200 OK\r\nContent-Length: %d\r\n\r\n" % len(body) + body
+        ok = b"HTTP/1.1 200 OK\r\nContent-Length: %d\r\n\r\n" % len(body) + (b"" if method == "HEAD" else body)   # HEAD: the length, no body
         beh = "now"
         idx = None
         if path.startswith("/r") and path[2:].isdigit():
@@ -134,6 +134,8 @@ class Peer:
             pending.append((0, ok[len(ok) // 2:], False))
         elif beh == "close-after":
             pending.append((0, ok, True))
+        elif beh == "status-204":       # an answer that has no body by definition and declares no length
+            pending.append((0, b"HTTP/1.1 204 No Content\r\nX-Why: nothing\r\n\r\n", False))
         else:
             code = w.code(idx)
             if beh == "redirect-nolocation":      # a redirect that cannot be followed
@@ -205,10 +207,12 @@ def harness(job, ch):
                 client.requests.append(dict(method="POST", path="/r%d" % i, qargs={"t": str(i)}, reply="tag%d" % i))
             elif st == "query-in-path":     # the query travels inside the path, no qargs given
                 client.request(method="GET", path="/r%d?t=%d" % (i, i), reply="tag%d" % i)
+            elif st == "head":              # a HEAD request: answered with a length and no body
+                client.request(method="HEAD", path="/r%d" % i, reply="tag%d" % i)
             else:                           # no query at all
                 client.request(method="GET", path="/r%d" % i, reply="tag%d" % i)
         wanted = {"qargs+body": ("POST", True, True), "dict": ("POST", True, False), "query-in-path": ("GET", True, False),
-                  "bare": ("GET", False, False)}
+                  "bare": ("GET", False, False), "head": ("HEAD", False, False)}
         rounds = 0
         for rounds in range(40):
             tymist.tick()
@@ -257,9 +261,9 @@ def harness(job, ch):
                     viol.append(("redirect-not-followed", "request %d redirect entry status %r body %r" % (i, r.get("status"), bytes(r.get("body") or b"")[:30])))
         # a plainly answered request yields a plain entry whatever happened to earlier requests on this client
         for i, r in enumerate(client.responses):
-            if behs.get(i) in ("now", "delay", "fragments", "close-after") and i < len(tags) and tags[i] == want[i]:
+            if behs.get(i) in ("now", "delay", "fragments", "close-after", "status-204") and i < len(tags) and tags[i] == want[i]:
                 # (the body is not compared: entries alias the parser's buffer, which the next response empties - outside C19)
-                if r.get("status") != 200 or r.get("errored") or (r.get("redirects") or []):
+                if r.get("status") != (204 if behs.get(i) == "status-204" else 200) or r.get("errored") or (r.get("redirects") or []):
                     viol.append(("plain-response-entry:%s" % ("errored" if r.get("errored") else "redirects" if r.get("redirects") else "status"),
                                  "request %d was answered 200 directly but its entry is status %r errored %r redirects %r body %r (behaviours %s)" % (
                                      i, r.get("status"), r.get("errored"), [x.get("status") for x in (r.get("redirects") or [])], bytes(r.get("body") or b"")[:20], behs)))
